@@ -263,6 +263,8 @@ class ActionTask(Task):
         n_evt = sum(1 for e in I.trace if e.name == "evt" and e.args[0] == "EVT_CONN_CLOSE")
         n_kill = sum(1 for e in I.trace if e.name == "kill")
         n_close = sum(1 for e in I.trace if e.name == "close")
+        I.ob(f"C27/{self.fn}/EVT_CONN_CLOSE-exactly-once-on-a-transition-to-idle-and-never-otherwise",
+             n_evt == (1 if a in S.TO_IDLE else 0), detail=f"{n_evt} notifications, next state {val!r}")
         if a in S.TO_IDLE:
             I.ob(f"{A}/to-idle:connection-closed-or-shut-down-exactly-once", n_close == 1, detail=f"{n_close}")
             I.ob(f"{A}/to-idle:exactly-one-EVT_CONN_CLOSE", n_evt == 1, detail=f"{n_evt}")
@@ -385,6 +387,11 @@ class DoActionTask(Task):
             trans[0].args[1].get("action") == want and trans[0].args[1].get("current_state") == st and \
             trans[0].args[1].get("fsm_event") == ev and trans[0].args[1].get("next_state") == new
         I.ob(f"{D}/exactly-one-EVT_FSM_TRANSITION-with-action-old-event-new", ok, detail=repr(trans))
+        # C27: the notified transition starts in the state the machine was in and ends in the state it is in afterwards -
+        # with current_state written only by __init__/transition (C27 frame scan) consecutive notifications chain
+        I.ob(f"C27/{FSM}:StateMachine.do_action/the-notified-transition-goes-from-the-state-before-to-the-state-after",
+             len(trans) == 1 and isinstance(trans[0].args[1], dict) and trans[0].args[1].get("current_state") == st
+             and trans[0].args[1].get("next_state") == new and sm.fields["current_state"] == new, detail=repr(trans))
 
 
 class TransitionTask(Task):
